@@ -8,5 +8,6 @@ mkdir -p .build .work evidence replays
 (cd tools/gendbproxy && go build -o ../../.build/gendbproxy .)
 cp /repo/go.sum sim/go.sum
 .build/gendbproxy /repo/server/backend/database/database.go sim/zz_dbproxy_gen.go sim
+python3 tools/genc19.py /repo/test/complex/tree_concurrency_test.go sim/zz_c19_matrix_gen.go
 (cd sim && go test -c -vet=off -o ../.build/sim-setup.test .)
 echo "setup ok"
